@@ -12,7 +12,7 @@ use raqote::BlendMode;
 pub struct C13;
 
 /// check one scene whose single drawing op uses an image source with Src blending
-fn eval(scene: &Scene) -> Result<(u64, u64, bool), Violation> {
+pub fn eval(scene: &Scene) -> Result<(u64, u64, bool), Violation> {
     let case = scene.to_string();
     // find the transform in force and the draw
     let mut ctm = IDENT;
